@@ -659,6 +659,14 @@ def _disturbs(stmt, names, attrs, subs, alias=None) -> bool:
                 continue
             if isinstance(f, ast.Attribute) and isinstance(f.value, ast.Name) and f.value.id in ('logger', 'logging', 'copy'):
                 continue
+            if isinstance(f, ast.Attribute) and (isinstance(f.value, ast.Name) or (
+                    isinstance(f.value, ast.Attribute) and isinstance(f.value.value, ast.Name))) and not subs \
+                    and f.attr in ('append', 'extend', 'remove', 'insert', 'clear', 'add', 'discard', 'index', 'count',
+                                   'sort', 'reverse') \
+                    and all(isinstance(a, (ast.Name, ast.Constant)) for a in n.args) and not n.keywords:
+                # a container method on a LOCAL name (a list / set the function holds): changes that container's
+                # content, rebinds no attribute of any object
+                continue
             if attrs or subs:
                 return True          # an arbitrary call may rebind a field / item the alias goes through
     return False
